@@ -267,6 +267,7 @@ func c06Case(t *T) {
 				}
 				galm := append([]string{}, alm...)
 				sort.Strings(galm)
+				t.Tracef("%s %q: model resolves at stage %s to %s allowed %v; Match returned route %s allowed %v", method, path, want.Stage, rname(tb, want.Route), want.Allowed, rname(tb, got), galm)
 				switch {
 				case got != want.Route && got != want.Alt:
 					note()
